@@ -81,41 +81,14 @@ Theorem c10_trait : forall v attr h t items,
 Proof. exact c10_trait_attrs. Qed.
 Print Assumptions c10_trait.
 
-(** ** the predicate the checker evaluates.
-    It holds of every expansion of an entraited trait. *)
-Theorem c10_view_sound_trait : forall v attr h t items,
-  expand_items v attr (InTrait h t) = Ok items -> good (view_C10 (mkCtx v attr (InTrait h t)) items).
-Proof. exact c10_view_trait. Qed.
-Print Assumptions c10_view_sound_trait.
-
-(** For fn / mod the unconditional statement is FALSE: [view_C10] subtracts the user's attributes from the
-    trait's, and a user attribute that is not re-applied to the trait but is token-identical to a generated
-    mock attribute cancels it. It holds when no user attribute is a mock attribute other than a
-    sub-attribute ... *)
-Theorem c10_view_sound_partial : forall v attr i items,
-  expand_items v attr i = Ok items ->
-  match i with
-  | InFn h _ _ | InMod h _ _ _ _ => c10_no_clash (h_attrs h) = true
-  | _ => True
-  end ->
-  good (view_C10 (mkCtx v attr i) items).
-Proof. exact c10_view_partial. Qed.
-Print Assumptions c10_view_sound_partial.
-
-(** ... and, exactly, the view's check on (generated ++ re-applied user sub-attributes) passes iff no
-    generated mock attribute outside the sub-attributes is also among the user's attributes *)
-Theorem c10_view_fn_exact : forall o mode im fns user,
-  let added := gen_added o TPlain mode im fns in
-  c10_ok o true (minus_attrs (added ++ filter is_trait_sub user) user) = negb (c10_stolen added user).
-Proof. exact c10_fn_exact. Qed.
-Print Assumptions c10_view_fn_exact.
-
-(** the counterexample: [#[entrait(Foo, mockall)] #[cfg_attr(test, ::mockall::automock)] fn foo(deps: &impl A) {}] *)
-Theorem c10_view_unsound_in_general :
-  exists items, expand_items VEntrait c10_cx_attr c10_cx_input = Ok items /\
-                ~ good (view_C10 (mkCtx VEntrait c10_cx_attr c10_cx_input) items).
-Proof. exact c10_view_counterexample. Qed.
-Print Assumptions c10_view_unsound_in_general.
+(** ** the predicate the checker evaluates on the implementation's output holds of every model expansion.
+    The view takes (attributes of the trait) minus (the user's attributes that the macro re-applies to the
+    trait: all of them for an entraited trait, the [async_trait] / [automock] sub-attributes for fn / mod),
+    one occurrence each; on the model's output that difference has exactly the generated attributes. *)
+Theorem c10_view_sound : forall v attr i items,
+  expand_items v attr i = Ok items -> good (view_C10 (mkCtx v attr i) items).
+Proof. exact c10_view. Qed.
+Print Assumptions c10_view_sound.
 
 (** non-vacuity *)
 Example c10_nonvacuous :
